@@ -693,6 +693,34 @@ def r_cfbclone(ctx, rep):
 _VEC_BUILD_OK = ("with_capacity", "new", "extend", "reserve", "collect", "len", "is_empty", "iter", "as_slice", "capacity", "get", "into_iter")
 
 
+def _tail_paths(e, depth=0):
+    """the locals an expression may evaluate *to* (not the ones it merely reads): through blocks, branches, tuples,
+    `Ok(..)` / `Some(..)` and `?`"""
+    e = unwrap(e) if isinstance(e, dict) else None
+    if not isinstance(e, dict) or depth > 8:
+        return []
+    k = e.get("k")
+    if k == "Path":
+        return [e]
+    if k == "Tup":
+        return [p for x in e.get("es", []) for p in _tail_paths(x, depth + 1)]
+    if k == "BlockExpr":
+        t = e["block"].get("expr")
+        return _tail_paths(t, depth + 1) if t is not None else []
+    if k == "If":
+        return _tail_paths(e["then"], depth + 1) + _tail_paths(e.get("els"), depth + 1)
+    if k == "Match" and e.get("src") == "TryDesugar":
+        sc = unwrap(e["scrut"])
+        return _tail_paths(sc["args"][0], depth + 1) if isinstance(sc, dict) and sc.get("k") == "Call" and sc.get("args") else []
+    if k == "Match":
+        return [p for a in e.get("arms", []) for p in _tail_paths(a["body"], depth + 1)]
+    if k == "Call" and (callee(e) or "").rsplit("::", 1)[-1] in ("Ok", "Some") and len(e.get("args", [])) == 1:
+        return _tail_paths(e["args"][0], depth + 1)
+    if k in ("Break",) and e.get("inl_ret"):
+        return _tail_paths(e.get("e"), depth + 1)
+    return []
+
+
 def r_cfbtab(ctx, rep):
     """C13: the FAT and mini-FAT tables are the concatenation of the decoded table sectors; every sector id of the
     container must keep its entry.  Decided: in Cfb::new the Vec<u32> tables other than the DIFAT work list are only
@@ -718,7 +746,7 @@ def r_cfbtab(ctx, rep):
                 continue
             from .kit import pat_bindings as _pb
             if any(lid in table_lids for _, lid in _pb(l_["pat"])):
-                for p_ in walk_k(l_["init"], "Path"):
+                for p_ in _tail_paths(l_["init"]):
                     if path_local(p_) and "Vec<u32>" in (p_.get("ty") or ""):
                         table_lids.add(path_local(p_)[1])
     for n in walk_k(fn.body, "MethodCall"):
@@ -950,6 +978,8 @@ def _pattern_sources(fn):
                     pair(p, n["scrut"])
                 if p.get("k") == "TupleStruct":
                     v = norm(p.get("res", {}).get("ctor_of") or p.get("res", {}).get("def"))
+                    if (v or "").endswith("Option::Some") and n.get("src") != "TryDesugar":
+                        continue        # `Some(x)` against an Option-valued scrutinee: paired above as its payload
                     for sp in p.get("pats", []):
                         if sp.get("k") == "Binding":
                             out[sp["lid"]] = ("ctor", v, n["scrut"])
@@ -984,6 +1014,14 @@ def r_hdrwin(ctx, rep):
                 if not s_ or s_[0] != "init" or not isinstance(s_[1], tuple) or s_[1][0] != "some-of":
                     return False
                 init = unwrap(s_[1][1]) if s_[1][1] is not None else None
+                # `let start = sheet.start(); match start { Some(start) => ..` : follow the local to its initialiser
+                for _ in range(3):
+                    pl2 = path_local(init) if isinstance(init, dict) and init.get("k") == "Path" else None
+                    s2 = src.get(pl2[1]) if pl2 else None
+                    if s2 and s2[0] == "init" and isinstance(s2[1], dict):
+                        init = unwrap(s2[1])
+                    else:
+                        break
                 return bool(init) and init.get("k") == "MethodCall" and init.get("name") == meth
             if a0.get("k") != "Tup" or len(a0["es"]) != 2:
                 probs.append("the window start is not a (row, column) pair")
